@@ -993,14 +993,16 @@ def rand_s1_ops(rng, a, n):
         elif r < 0.63:
             o = [3] + rand_reqid(rng)
         elif r < 0.73:
-            o = [4, pc.pick(rng, pc.BND14, 16384)]
+            o = [4, pc.pick(rng, pc.BND14, 16384) if rng.random() < 0.88 else rng.choice(pc.HDR_OUT_OF_RANGE[5])]
         elif r < 0.83:
-            o = [5, pc.pick(rng, pc.BND11, 2048)]
+            o = [5, pc.pick(rng, pc.BND11, 2048) if rng.random() < 0.88 else rng.choice(pc.HDR_OUT_OF_RANGE[3])]
         elif r < 0.91:
             o = [6, ws, we]
         else:
             o = [7, ws, we]
         ops.append(o)
+        if o[0] in (4, 5) and not 0 <= o[1] < (16384 if o[0] == 4 else 2048) and rng.random() < 0.7:
+            ops.append(rng.choice([[0], [0], [6, ws, we], [7, ws, we]]))      # header pushed out of range: a serialiser follows
     return ops
 
 
@@ -1115,6 +1117,15 @@ def harden_streams(tier, rng):
             a = helper_report(rng, k, ws, we) if kind == 3 else rand_report(rng, k, ws, we)
             a = a[:6] + [[kind, ws, we]]
             cases.append((763, a + [[0], [7, ws, we], [4, rng.randrange(16384)], [0], [6, ws, we], [2], [5, rng.randrange(2048)], [0], [7, ws, we], [1]]))
+    # the telemetry header pushed out of range through the report's public attributes: pack / decoding of the own output
+    # must refuse with ValueError (nothing encoded), the object keeps the values, an in-range assignment heals it
+    for f, lim in ((4, 16384), (5, 2048)):
+        for v in pc.HDR_OUT_OF_RANGE[5 if f == 4 else 3]:
+            kind = rng.randrange(4)
+            a = helper_report(rng) if kind == 3 else rand_report(rng)
+            a = a[:6] + [[kind] + a[6]]
+            ws, we = a[6][1], a[6][2]
+            cases.append((763, a + [[0], [f, v], [0], [1], [7, ws, we], [6, ws, we], [2], [f, rng.randrange(lim)], [0], [7, ws, we], [1]]))
     yield "service1_histories", "exact", cases
     # 21. two reports decoded in a row (unpack / from_tm, a default-constructed report in between), the first one
     #     inspected again afterwards; also when the second one is refused
@@ -1774,14 +1785,22 @@ def oracle_s1_history(a, ires):
         what = "path %d, report %s, operations %s" % (kind, a[:6], a[7:8 + n])
         if op == 3 and not reqid_ok(o[1:7]):
             return None
+        if op == 4 and row[0] == 0:
+            seq = o[1]
+        elif op == 5 and row[0] == 0:
+            apid = o[1]
+        if not (0 <= apid < 2048 and 0 <= seq < 16384) and op in (0, 6, 7):
+            # the report's telemetry header was pushed out of range (the setters do not validate): pack(), also the one
+            # inside the decoding of the own output, must refuse with ValueError; nothing is encoded, nothing changes
+            r = pc.out_of_range_verdict("Service1Tm", 0, what, {"apid": apid, "count": seq, "dlen": 0}, row)
+            if r is not None:
+                return r
+            pos += 1
+            continue
         if row[0] == 1:
             return ("C15/Service1Tm.history/valid-refused", "%s: raised %s" % (what, row))
         if op == 3:
             cur_rq = list(o[1:7])
-        elif op == 4:
-            seq = o[1]
-        elif op == 5:
-            apid = o[1]
         exp = pc.tm_layout(1, k, apid, seq, 0, ref, dest, ver, a[1], src)
         if op == 0:
             if row != [0] + exp:
